@@ -10,6 +10,7 @@ CONSTANTS
   Loads = {"moderate"}
   PVsA = {FALSE}
   TrafoKindsA = {"none"}
+  LoadsA = {"moderate"}
   Topos2 = {"radial", "loop1", "loop2"}
   SlackKinds2 = {"ext_grid", "gen"}
   SlackPos2 = {0}
